@@ -118,7 +118,9 @@ pub trait BlsSignCrypt:
 
         let mut v = vec![0u8; r.len()];
         reader.read(&mut v);
-        debug_assert!(!v.iter().all(|x| *x == 0));
+        // honest payloads are at least 32 bytes; shorter ones only come from foreign
+        // ciphertexts and may legitimately have an all-zero (or empty) key stream
+        debug_assert!(v.len() < 32 || !v.iter().all(|x| *x == 0));
         // V = HℓX(R) ⊕ M
         byte_xor(r, &v)
     }
